@@ -1204,6 +1204,177 @@ def pca_oracles(ck):
                     "independent numpy SVD of the projected, standardised, mask-weighted data")
 
 
+# ---------------------------------------------------------------- pca with rank-deficient designs
+def _span_projector(X, n):
+    """Orthogonal projector onto the column space of X (n rows), built independently of pinv/QR:
+    left singular vectors with an explicit rank truncation.  The projector onto a subspace is unique
+    (theorem pca_projector_unique), so any parametrisation of the same span must give this matrix."""
+    if X is None:
+        return np.eye(n)
+    X = np.asarray(X, float).reshape(n, -1)
+    if X.shape[1] == 0 or not np.any(X):
+        return np.zeros((n, n))
+    U, S, _ = np.linalg.svd(X, full_matrices=False)
+    r = int((S > 1e-9 * S.max()).sum())
+    return U[:, :r] @ U[:, :r].T
+
+
+def _design_families(n, rng):
+    """(name, matrix) pairs with n rows; small-integer entries so that linear dependence is exact."""
+    one = np.ones(n)
+    trend = np.arange(n, dtype=float)
+    g1 = (np.arange(n) % 2 == 0).astype(float)
+    g2 = 1.0 - g1
+    h1 = (np.arange(n) < n // 2).astype(float)
+    r1 = rng.integers(-3, 4, size=n).astype(float)
+    r2 = rng.integers(-3, 4, size=n).astype(float)
+    if not np.any(r1):
+        r1[0] = 1.0
+    A = rng.integers(-2, 3, size=(n, 2)).astype(float)
+    A[0, 0] = 1.0; A[1, 1] = 1.0; A[0, 1] = 0.0; A[1, 0] = 0.0
+    Bm = rng.integers(-2, 3, size=(2, n + 2)).astype(float)
+    Bm[0, 0] = 1.0; Bm[1, 1] = 1.0; Bm[0, 1] = 0.0; Bm[1, 0] = 0.0
+    fam = [
+        ("full-rank-tall", np.column_stack([one, trend, r1 * r1 + r2])),
+        ("intercept+complementary-groups+trend", np.column_stack([one, g1, g2, trend])),
+        ("rescaled-duplicate", np.column_stack([trend + 1, 2.5 * (trend + 1)])),
+        ("duplicate+other", np.column_stack([r1, h1, r1])),
+        ("sum-of-columns", np.column_stack([g1, h1, g1 + h1, g1 - 2 * h1])),
+        ("zero-column", np.column_stack([np.zeros(n), trend, one])),
+        ("only-zero-column", np.zeros((n, 1))),
+        ("wide-rank-2", A @ Bm),
+        ("single-column", r1.reshape(n, 1)),
+    ]
+    return fam
+
+
+def pca_designs(ck):
+    """pca with design_keep / design_resid that are rank-deficient, wide or tall, together and separately.
+    Expected values come from projectors built by _span_projector (never from pinv or QR)."""
+    from nipy.algorithms.utils.pca import pca
+    rng = ck.rng("pca-designs")
+    TOL = 1e-8
+    n_done = n_skip = 0
+    reps = ck.n(1, 4)
+    for rep_i in range(reps):
+        for n in (5, 6, 8):
+            fams = _design_families(n, rng)
+            keeps = [("None", None)] + fams
+            resids = [("None", None), ("mean", "mean")] + fams
+            for kname, K in keeps:
+                for rname, Rm in resids:
+                    if kname == "None" and rname in ("None", "mean") and rep_i > 0:
+                        continue
+                    nvox = 3 * n
+                    Y = np.round(rng.normal(size=(n, nvox)) * 8) / 4 + 0.25 * rng.normal(size=(n, nvox))
+                    standardize = bool((n + len(kname) + len(rname) + rep_i) % 2)
+                    as3d = bool((len(kname) + rep_i) % 2)
+                    data = Y.reshape(n, 3, n) if as3d else Y
+                    Pk = _span_projector(K, n)
+                    if isinstance(Rm, str):
+                        Pr = np.ones((n, n)) / n
+                    elif Rm is None:
+                        Pr = np.zeros((n, n))
+                    else:
+                        Pr = _span_projector(Rm, n)
+                    XZ = (np.eye(n) - Pr) @ Pk
+                    U, S, _ = np.linalg.svd(XZ)
+                    rep = {"n_pts": n, "design_keep": None if K is None else K.tolist(), "design_keep_kind": kname,
+                           "design_resid": Rm if (Rm is None or isinstance(Rm, str)) else Rm.tolist(), "design_resid_kind": rname,
+                           "standardize": standardize, "data_shape": list(data.shape), "data": data.tolist(),
+                           "call": "nipy.algorithms.utils.pca.pca(np.array(data), 0, standardize=standardize, "
+                                   "design_keep=np.array(design_keep), design_resid=np.array(design_resid))"}
+                    if S.max() < 1e-9:
+                        # nothing is left after the projections: any behaviour but garbage components is acceptable; skip
+                        n_skip += 1
+                        continue
+                    ratio = S / S.max()
+                    if np.any((ratio > 1e-8) & (ratio < 0.05)):
+                        n_skip += 1        # too close to tol_ratio = 0.01: the component count is not well defined
+                        continue
+                    rank = int((ratio > 0.01).sum())
+                    Ux = U[:, :rank]
+                    Pxz = Ux @ Ux.T
+                    sig = "keep=%s,resid=%s" % ("deficient" if (K is not None and np.linalg.matrix_rank(K) < K.shape[1]) else "full" if K is not None else "none",
+                                               "deficient" if (isinstance(Rm, np.ndarray) and (not np.any(Rm) or np.linalg.matrix_rank(Rm) < Rm.shape[1]))
+                                               else "full" if isinstance(Rm, np.ndarray) else str(rname))
+                    ck.count(("pca-design", n, kname, rname, rep_i), bucket="pca-design:" + sig)
+                    try:
+                        res = pca(data, 0, standardize=standardize, design_keep=K, design_resid=Rm)
+                    except Exception as e:  # noqa
+                        ck.fail("pca-design/raises/" + sig, "pca with design_keep=%s, design_resid=%s (n_pts=%d) raised %s: %s"
+                                % (kname, rname, n, type(e).__name__, e), rep)
+                        continue
+                    n_done += 1
+                    B, pv = np.asarray(res['basis_vectors']), np.asarray(res['pcnt_var'])
+                    # (a) component count = rank of the projection (I - P_resid) P_keep
+                    if B.shape != (n, rank) or pv.shape != (rank,) or res['basis_projections'].shape[0] != rank:
+                        ck.fail("pca-design/component-count/" + sig,
+                                "pca(design_keep=%s, design_resid=%s, n_pts=%d): %d components returned (basis %s), but the projection "
+                                "(I - P_resid) P_keep onto the design spans has rank %d" % (kname, rname, n, B.shape[1], B.shape, rank), rep)
+                        continue
+                    # (b) basis vectors orthonormal, inside the projected design span, orthogonal to the removed span
+                    if np.abs(B.T @ B - np.eye(rank)).max() > TOL:
+                        ck.fail("pca-design/basis-not-orthonormal/" + sig, "pca(design_keep=%s, design_resid=%s): basis not orthonormal"
+                                % (kname, rname), rep)
+                    out_of_span = np.abs(B - Pxz @ B).max()
+                    if out_of_span > TOL:
+                        ck.fail("pca-design/basis-leaves-design-span/" + sig,
+                                "pca(design_keep=%s, design_resid=%s, n_pts=%d): basis vectors leave the span of (I - P_resid) P_keep "
+                                "(max deviation %.3g)" % (kname, rname, n, out_of_span), rep)
+                    if np.abs(Pr @ B).max() > TOL:
+                        ck.fail("pca-design/basis-not-orthogonal-to-removed-span/" + sig,
+                                "pca(design_keep=%s, design_resid=%s): basis vectors have a component (%.3g) in the span of design_resid"
+                                % (kname, rname, np.abs(Pr @ B).max()), rep)
+                    if Rm is None and K is not None and np.abs(B - Pk @ B).max() > TOL:
+                        ck.fail("pca-design/basis-leaves-kept-span/" + sig, "pca(design_keep=%s): basis vectors leave the column span of design_keep"
+                                % kname, rep)
+                    # (c) percent variance and eigen-equation against the covariance of the projected, standardised data
+                    Ys = Y
+                    if standardize:
+                        rres = Y - Pr @ Y
+                        rmse = np.sqrt(np.square(rres).sum(axis=0) / n)
+                        Ys = Y * np.where(rmse <= 0, 0, 1. / np.where(rmse <= 0, 1, rmse))
+                    Cfull = Pxz @ Ys @ Ys.T @ Pxz
+                    ev = np.sort(np.linalg.eigvalsh(Cfull))[::-1][:rank]
+                    pv_ref = 100 * ev / ev.sum()
+                    if np.abs(pv - pv_ref).max() > 1e-7 or np.any(np.diff(pv) > 1e-9) or abs(pv.sum() - 100) > 1e-8:
+                        ck.fail("pca-design/pcnt-var/" + sig, "pca(design_keep=%s, design_resid=%s, n_pts=%d): pcnt_var %s, expected %s "
+                                "(eigenvalues of the covariance of the data projected on the design span)"
+                                % (kname, rname, n, np.round(pv, 6).tolist(), np.round(pv_ref, 6).tolist()), rep)
+                    elif np.abs(Cfull @ B - B * ev).max() > 1e-7 * max(1.0, ev.max()):
+                        ck.fail("pca-design/not-eigenvectors/" + sig, "pca(design_keep=%s, design_resid=%s): basis vectors are not eigenvectors "
+                                "of the projected covariance" % (kname, rname), rep)
+                    # (d) the same span in another parametrisation gives the same result (projector depends on the span only)
+                    for which in ("keep", "resid"):
+                        M = K if which == "keep" else Rm
+                        if not isinstance(M, np.ndarray) or not np.any(M):
+                            continue
+                        M2 = np.column_stack([M[:, ::-1] * 3.0, M[:, :1] - M[:, -1:]])       # reordered, rescaled, one dependent column more
+                        kw = dict(design_keep=K, design_resid=Rm)
+                        kw["design_" + which] = M2
+                        try:
+                            r2 = pca(data, 0, standardize=standardize, **kw)
+                        except Exception as e:  # noqa
+                            ck.fail("pca-design/reparametrised-raises/" + sig, "pca raised %s when design_%s was replaced by another matrix "
+                                    "with the same column span" % (e, which), dict(rep, reparametrised=which, matrix=M2.tolist()))
+                            continue
+                        B2, pv2 = np.asarray(r2['basis_vectors']), np.asarray(r2['pcnt_var'])
+                        if B2.shape != B.shape or np.abs(pv2 - pv).max() > 1e-7 or \
+                                np.abs(B2 @ B2.T - B @ B.T).max() > 1e-7:
+                            ck.fail("pca-design/depends-on-parametrisation/" + sig,
+                                    "pca changes when design_%s (%s) is replaced by another matrix with the same column span: %d vs %d components, "
+                                    "pcnt_var %s vs %s" % (which, kname if which == "keep" else rname, B2.shape[1], B.shape[1],
+                                                           np.round(pv2, 6).tolist(), np.round(pv, 6).tolist()),
+                                    dict(rep, reparametrised=which, matrix=M2.tolist()))
+                    if (kname, rname, n, rep_i) == ("intercept+complementary-groups+trend", "rescaled-duplicate", 6, 0):
+                        ck.sample({"call": "pca(data(6,18), design_keep=[1,g1,g2,trend] (rank 3), design_resid=[t+1, 2.5(t+1)] (rank 1))",
+                                   "components": int(B.shape[1]), "pcnt_var": np.round(pv, 6).tolist()})
+    ck.section("pca_designs", cases=n_done, skipped_near_tol_ratio_or_empty=n_skip,
+               families=[f[0] for f in _design_families(5, ck.rng("pca-fam"))], tolerance=TOL)
+    ck.trust.append("expected projectors for the design oracles come from numpy.linalg.svd with an explicit rank truncation (1e-9 relative)")
+
+
 def run(ck):
     ck.cov["rule"] = ("slice timing: every registered schedule name x n_slices 1..N x TR set (exhaustive over n in range; "
                       "non-trivial when n>1; distinct by (name,n,TR)).  time_slice_diffs: shapes of 2..5 dims with extents 1..4 "
@@ -1211,7 +1382,8 @@ def run(ck):
                       "{non-negative, negative, None} spellings, data 81*int in [-8,8]; non-trivial when T>1 and a volume has >1 voxel.  "
                       "mask: small 3-d volumes (ties/zeros, ints, dyadics, bimodal) x 7 (m,M) windows x exclude_zeros; 1..5 random masks x "
                       "thresholds j/10; random 3-d masks for components.  generators: all shapes of 1..4 dims extents 1..3 x int axes, "
-                      "axis lists of 1..4 entries.  pca: random float arrays x axis x mask x standardize x designs (tolerance 1e-10)")
+                      "axis lists of 1..4 entries.  pca: random float arrays x axis x mask x standardize x designs (tolerance 1e-10); pca designs: 9 design families (full rank, collinear, "
+                      "rescaled duplicate, zero column, wide rank-2, ...) for design_keep x the same + mean/None for design_resid x n_pts 5,6,8")
     ck.coq_build()
     ck.overlay()
     slicetiming(ck)
@@ -1219,3 +1391,4 @@ def run(ck):
     masks(ck)
     generators(ck)
     pca_oracles(ck)
+    pca_designs(ck)
